@@ -145,12 +145,21 @@ extern "C" void harness_c05_pow()
         VERIF_END();
         return;
     }
-    C e = {{integer_class(1), integer_class(1)}, {integer_class(0), integer_class(1)}};
-    for (long i = 0; i < (k < 0 ? -k : k); i++)
-        e = {qsub(qmul(e.re, x.re), qmul(e.im, x.im)), qadd(qmul(e.re, x.im), qmul(e.im, x.re))};
-    if (k < 0) {
-        Q den = qadd(qmul(e.re, e.re), qmul(e.im, e.im));
-        e = {qdiv(e.re, den), qdiv(Q{integer_class(0) - e.im.n, e.im.d}, den)};
+    // oracle over one common denominator L: a = (u + v i)/L, a^|k| = (U + V i)/L^|k| by repeated Gaussian-integer multiplication;
+    // for k < 0 the reciprocal is L^|k| (U - V i)/(U^2 + V^2)  (fractions are kept small so that the one-limb model suffices)
+    integer_class L = x.re.d * x.im.d, u = x.re.n * x.im.d, v = x.im.n * x.re.d, U = 1, V = 0, D = 1;
+    for (long i = 0; i < (k < 0 ? -k : k); i++) {
+        integer_class nU = U * u - V * v, nV = U * v + V * u;
+        U = nU;
+        V = nV;
+        D *= L;
+    }
+    C e;
+    if (k >= 0)
+        e = {{U, D}, {V, D}};
+    else {
+        integer_class nrm = U * U + V * V;
+        e = {{D * U, nrm}, {integer_class(0) - D * V, nrm}};
     }
     assert_normal(*r);
     C g = cof(*r);
